@@ -301,7 +301,7 @@ func (w *worker) paginate(t tree, rn run) int {
 	nExp := len(exp.keys) + len(exp.prefixes)
 	seenK, seenP := map[string]int{}, map[string]int{}
 	var pages []pageLog
-	deep := false
+	deep, pageDeep := false, false
 	cur := rn.Start
 	reported := map[string]bool{}
 	viol := func(class, msg string) {
@@ -309,7 +309,13 @@ func (w *worker) paginate(t tree, rn run) int {
 			return
 		}
 		reported[class] = true
-		sig := lib.Sig{"op": "list", "api": rn.Api, "style": rn.Style, "class": class, "input": inputClass(t, rn, deep)}
+		input := inputClass(t, rn, deep)
+		if class == "over-max-keys" && pageDeep && !strings.HasPrefix(rn.Prefix, ".uploads/") {
+			// a per-page refutation on a continuation page whose own marker is >= 2 directories
+			// deep belongs to the deep-marker class whatever the run started from
+			input = "deep-marker"
+		}
+		sig := lib.Sig{"op": "list", "api": rn.Api, "style": rn.Style, "class": class, "input": input}
 		detail := map[string]interface{}{"msg": msg, "tree": t, "run": rn, "pages": pages,
 			"expected_keys": exp.keys, "expected_prefixes": exp.prefixes, "status_legend": "2=must 1=may 0=must-not"}
 		debugDump(sig, detail)
@@ -336,6 +342,7 @@ func (w *worker) paginate(t tree, rn run) int {
 		if strings.Count(cur, "/") >= 2 {
 			deep = true
 		}
+		pageDeep = pg > 0 && strings.Count(cur, "/") >= 2 && !strings.Contains(rn.Prefix, "/")
 		res, resp, err := w.s3.List(w.bucket, q)
 		if rn.Delim == "/" {
 			w.dirty = true
@@ -477,7 +484,7 @@ func runsFor(t tree, uplId string, rng *rand.Rand, nStart int, lean bool) []run 
 			e := expect(t, run{Prefix: p, Delim: d})
 			n := len(e.keys) + len(e.prefixes)
 			for _, m := range []int{1, 2, 3, 4} {
-				if m > n+1 {
+				if m > n+1 || (lean && m == 4) {
 					continue
 				}
 				// lean (thorough tier, all 1024 trees): every style at max-keys 1, then the
@@ -639,6 +646,9 @@ func main() {
 					continue
 				}
 				w.doTree(mkTree(m), nStart)
+				if n := r.Counter("trees"); n%64 == 0 {
+					fmt.Printf("progress: %d trees, %d list requests\n", n, r.Counter("list_requests"))
+				}
 			}
 		}(w)
 	}
